@@ -364,5 +364,91 @@ def rule_pure13(repo, tier):
                      'consecutive steps that reuses the same Q / R objects sees them unchanged', t)
 
 
+@guarded
+def rule_sigma(repo, tier):
+    """UKF: a weighted sample statistic pairs the weights with the sigma points of the SAME draw, and every draw uses the same spread
+    parameter.  The points of a draw are spread by sqrt(n + k) and its weights are k/(n+k), 1/(2(n+k)): weights of one draw applied to the
+    points of another one scale every covariance by the ratio of the two (n + k)."""
+    res = RuleResult('C13.SIGMA', 'UKF.forward: every weighted mean / covariance uses the weights returned by the same sigma_weight_points call as '
+                     'the points it weighs, and all draws pass the same spread parameter k', floor=5)
+    f = repo.func(UKF, 'UKF.forward')
+    tags = {}          # variable -> set of ('p'|'w', draw number)
+    draws = []         # (call node, k expression source)
+
+    def deps(e):
+        out = set()
+        for n in ast.walk(e):
+            if isinstance(n, ast.Name) and isinstance(n.ctx, ast.Load):
+                out |= tags.get(n.id, set())
+        return out
+
+    def is_draw(e):
+        return isinstance(e, ast.Call) and isinstance(e.func, ast.Attribute) and e.func.attr == 'sigma_weight_points'
+
+    def check_use(node, weight_e, operands, what):
+        wt = {t for t in deps(weight_e) if t[0] == 'w'}
+        pt = {t[1] for o in operands for t in deps(o) if t[0] == 'p'}
+        if not wt or not pt:
+            return
+        wgen = {t[1] for t in wt}
+        ok = wgen == {max(pt)}
+        res.inst({'function': f.fq, 'statistic': src(node)[:70], 'weights of draw': sorted(wgen), 'latest points of draw': max(pt), 'same draw': ok},
+                 (what, src(node)[:70]))
+        if not ok:
+            res.add(Finding('C13.SIGMA', f, '`%s` weighs the sigma points of draw %d with the weights of draw %s: the two draws are spread with their own '
+                            '(n + k), so the statistic is scaled by the ratio whenever the spread parameters differ' % (src(node)[:70], max(pt), sorted(wgen)),
+                            node=node))
+
+    def scan_uses(e):
+        for n in ast.walk(e):
+            if isinstance(n, ast.BinOp) and isinstance(n.op, ast.Mult):
+                for a, b in ((n.left, n.right), (n.right, n.left)):
+                    if isinstance(a, ast.Name) and any(t[0] == 'w' for t in tags.get(a.id, ())) and not any(t[0] == 'p' for t in tags.get(a.id, ())):
+                        check_use(n, a, [b], 'mean')
+            elif isinstance(n, ast.Call) and isinstance(n.func, ast.Attribute) and n.func.attr == 'compute_cov' and len(n.args) >= 3:
+                check_use(n, n.args[2], n.args[:2], 'cov')
+
+    def stmts(body):
+        for st in body:
+            if isinstance(st, ast.Assign):
+                scan_uses(st.value)
+                if is_draw(st.value):
+                    k = len(draws) + 1
+                    c = st.value
+                    kexp = c.args[2] if len(c.args) > 2 else next((kw.value for kw in c.keywords if kw.arg == 'k'), None)
+                    draws.append((c, src(kexp) if kexp is not None else '<default>'))
+                    for t in st.targets:
+                        if isinstance(t, ast.Tuple) and len(t.elts) == 2:
+                            for el, tag in zip(t.elts, ('p', 'w')):
+                                if isinstance(el, ast.Name):
+                                    tags[el.id] = {(tag, k)}
+                        elif isinstance(t, ast.Name):
+                            tags[t.id] = {('p', k), ('w', k)}
+                else:
+                    d = deps(st.value)
+                    for t in st.targets:
+                        for el in (t.elts if isinstance(t, ast.Tuple) else [t]):
+                            if isinstance(el, ast.Name):
+                                tags[el.id] = set(d)
+            elif isinstance(st, (ast.Expr, ast.Return)) and st.value is not None:
+                scan_uses(st.value)
+            elif isinstance(st, (ast.If, ast.For, ast.While, ast.With, ast.Try)):
+                for fld in ('body', 'orelse', 'finalbody'):
+                    stmts(getattr(st, fld, []) or [])
+    stmts(f.node.body)
+    if len(draws) < 2:
+        raise AnalysisError('C13.SIGMA: UKF.forward draws %d sigma sets, expected the prediction and the observation draw' % len(draws))
+    ks = {k for _, k in draws}
+    res.inst({'function': f.fq, 'draws': len(draws), 'spread parameter of each draw': [k for _, k in draws], 'agree': len(ks) == 1}, 'k')
+    if len(ks) != 1:
+        res.add(Finding('C13.SIGMA', f, 'the sigma draws of one step use different spread parameters %s: the documented filter uses one k for the step'
+                        % [k for _, k in draws], node=draws[-1][0], construct='k|' + '|'.join(k for _, k in draws)))
+    return res
+
+
 def rules(repo, tier):
-    return [rule_pure13(repo, tier), rule_sym(repo, tier), rule_innov(repo, tier), rule_gain(repo, tier), rule_xcov(repo, tier), rule_orient(repo, tier), rule_pf(repo, tier), rule_inverse(repo, tier)]
+    from ..fresh import rule_fresh
+    return [rule_pure13(repo, tier), rule_sym(repo, tier), rule_innov(repo, tier), rule_gain(repo, tier), rule_xcov(repo, tier), rule_orient(repo, tier), rule_pf(repo, tier), rule_inverse(repo, tier), rule_sigma(repo, tier),
+            rule_fresh(repo, 'C13.FRESH', 'nothing a filter step writes in place is loaded from the filter object: work tensors are allocated per step',
+                       [(EKF, 'EKF.forward'), (UKF, 'UKF.forward'), (UKF, 'UKF.sigma_weight_points'), (UKF, 'UKF.compute_cov'), (PF, 'PF.forward'),
+                        (PF, 'PF.generate_particles'), (PF, 'PF.resample_particles')])]
